@@ -16,14 +16,14 @@ CFG = {
                   "ALL operation histories in every order, and ANY size/fee arithmetic (sizes, min_fee, min-ADA and value-size tests are an "
                   "arbitrary stateful oracle in the theorems). The model is tied to the compiled code by an exact differential run in which "
                   "the oracle answers are the ones the implementation computed (hook H5), and the Coq-extracted judge evaluates the ledger "
-                  "rule on the implementation's own transaction bytes.",
+                  "rule on the implementation's own transaction bytes, read by an independent Coq-extracted CBOR reader.",
     "level_note": "Trusted: Coq kernel; the hand-written model (tied by correspondence only on the generated scenarios); the transcription of the "
                   "ledger's UTXO rule (ledger_balanced, pinned by a Check in Props/C05.v) with the deposit/refund table of C20; the typing "
                   "premise oracle_u64 (fee / min-ADA answers are u64, selected UTxO values are well-formed), proved for the recorded-answer "
                   "oracle; state_wf (BTreeMap keys sorted, quantities < 2^64, mint quantities in -(2^64-1)..2^64-1) as the representation "
                   "invariant of builder states, preserved by every modelled operation (C05_histories starts from the empty builder); "
-                  "extraction and the OCaml/Rust glue; the library's own Transaction::from_bytes when the harness re-reads the built "
-                  "transaction. Plutus witnesses, reference inputs, collateral and votes take no part in the balance and are not in the model "
+                  "extraction and the OCaml/Rust glue; the judge reads the built transaction's bytes with its own reader "
+                  "(Builder/TxReader.v over the generic CBOR recogniser Cbor/Item.v), not with the library. Plutus witnesses, reference inputs, collateral and votes take no part in the balance and are not in the model "
                   "(governance proposals and certificates participate through their deposit / refund amounts only). No axioms.",
     "theorems": ["C05_accounting", "C05_change_balances", "C05_select_and_change", "C05_balance", "C05_failure_keeps_wf",
                  "C05_histories", "C05_history_change", "C05_order", "C05_judge_decides", "C05_recorded_oracle_ok",
@@ -55,7 +55,9 @@ CFG = {
         "part of this check (C06 / C07 / C15)",
         "the coin selection of add_inputs_from_and_change enters as a recorded answer (which UTxOs add_inputs_from added, on a copy of the "
         "builder with the same scripted random draws); its own correctness is C08",
-        "the harness re-reads the built transaction with the library's Transaction::from_bytes and resolves inputs in the scenario's UTxO table",
+        "the judge reads tx.to_bytes() with Builder/TxReader.v (Cbor/Item.v parse_exact + map_lookup_uint, Conway CDDL body keys 0,1,2,4,5,9,20,22) "
+        "and resolves inputs in the scenario's UTxO table and addresses in the harness's identifier tables; the library's own reading of "
+        "the same bytes (Transaction::from_bytes, compared with the model) must agree with it field by field, else the verdict is a failure",
     ],
     "assumptions": [
         "oracle_u64: every fee / min-ADA answer is a u64 and the coin selection adds well-formed values (explicit premise of the theorems; "
